@@ -196,9 +196,19 @@ def whole_run(seed, nphases=3):
         api.dut_id = 'dut%d' % i
         if not ev.is_set():
           probes.append('setting dut_id did not set a previously obtained event')
+        # the last change of this phase, then silence: once every watcher has gone back to
+        # waiting, the view each of them holds must contain it ("a watcher can never miss a change")
+        api.measurements.last = 10 + i
+        import time
+        time.sleep(0.5)
+        for k, (name, val) in sorted(latest.items()):
+          if name == 'ph%d' % i and val != 10 + i:
+            probes.append('a watcher looping on snapshot-then-wait is left with a stale view of a measurement')
       body.__name__ = 'ph%d' % i
-      return htf.measures(htf.Measurement('m'))(htf.PhaseOptions(name='ph%d' % i, requires_state=True)(body))
+      return htf.measures(htf.Measurement('m'), htf.Measurement('last'))(
+          htf.PhaseOptions(name='ph%d' % i, requires_state=True)(body))
     test = htf.Test(*[mk(i) for i in range(nphases)])
+    latest = {}
     done = []
     test.add_output_callbacks(done.append)
 
@@ -218,6 +228,9 @@ def whole_run(seed, nphases=3):
       while True:
         d, ev = st.asdict_with_event()
         seen.append((d['status'], (d['running_phase_state'] or {}).get('name')))
+        rp = d['running_phase_state']
+        if rp:
+          latest[k] = (rp.get('name'), ((rp.get('measurements') or {}).get('last') or {}).get('measured_value'))
         if d['status'] == 'COMPLETED':
           break
         ev.wait()
